@@ -107,6 +107,11 @@ func backendProp(b backendSpec, meaning string) propFunc {
 		r.Clauses = append(r.Clauses, "break-if in the scope of the continuing block (E98): a loop writer does not hand the continuing block to a block writer that drops the block's baked names at its end and write the break-if condition afterwards - the condition would be expanded again from its operands, after the continuing block's assignments")
 		c.runUnemitBeforeUse(r, "scope.unemitbeforeuse", b.Pkg)
 		r.floor("scope.unemitbeforeuse", 1)
+		if b.Name == "hlsl" {
+			r.Clauses = append(r.Clauses, missReportedClause)
+			c.runMissReported(r, "bindmap.missreported", b.Pkg)
+			r.floor("bindmap.missreported", 2)
+		}
 		if b.Name == "glsl" {
 			r.Clauses = append(r.Clauses, "no glued signs (E93): where the GLSL writer puts a sign directly before substituted expression text (\"-%s\", \"-\" + text), the same function looks at how that text starts (strings.HasPrefix) - \"-\" before \"-5\" is the decrement operator")
 			c.runPrefixGlue(r, "parens.prefixglue", b.Pkg)
